@@ -47,7 +47,7 @@ def scheme_table():
         if name in EMBEDDED:
             cfg.update(adaptive=True, adaptive_rtol=1e300)
         t.append(("tdrk/" + name, "prop_and_compress_tdrk", cfg, ("order", p)))
-    for solver, tol in (("krylov", 1e-9), ("RK45", 1e-4)):
+    for solver, tol in (("krylov", 1e-7), ("RK45", 1e-4)):
         t.append(("ps/" + solver, "tdvp_ps", {"ivp_solver": solver}, ("exact", tol)))
         t.append(("ps2/" + solver, "tdvp_ps2", {"ivp_solver": solver}, ("exact", tol)))
     for m in ("tdvp_mu_vmf", "tdvp_vmf"):
